@@ -4,6 +4,8 @@ import (
 	stdjson "encoding/json"
 	"fmt"
 	"math"
+	"math/big"
+	"net"
 	"reflect"
 	"strings"
 	"time"
@@ -264,6 +266,22 @@ func (f *Filler) Fill(v reflect.Value, depth int) {
 		maxDepth = 6
 	}
 	switch t {
+	case reflect.TypeOf(big.Int{}):
+		v.Set(reflect.ValueOf(*new(big.Int).Lsh(big.NewInt(r.Int64()), uint(r.Intn(70)))))
+		return
+	case reflect.TypeOf(big.Float{}):
+		v.Set(reflect.ValueOf(*big.NewFloat(float64(r.Int64()) / 8)))
+		return
+	case reflect.TypeOf(net.IP(nil)):
+		switch r.Intn(4) {
+		case 0:
+			v.SetBytes(nil)
+		case 1:
+			v.SetBytes(r.Bytes(16))
+		default:
+			v.SetBytes(r.Bytes(4))
+		}
+		return
 	case TNumber:
 		if f.RawValid || r.Chance(5, 6) {
 			v.SetString(numPool[r.Intn(len(numPool))])
